@@ -137,6 +137,12 @@ Tr_C08_begin(A, B) ==
 Inv_C08_arrays(X) ==
     cfg.api \/ X.tel.use = SumOver({o \in ObsNames : X.obs[o].ast # NoneT /\ X.obs[o].status # "FINISHED"},
                                    LAMBDA o : OCfg(o).demand)
+(* the scheduler's ingest budget counts exactly the machines of the         *)
+(* observations whose ingest is under way (a refused or postponed           *)
+(* observation books nothing)                                               *)
+Inv_C08_budget(X) ==
+    cfg.api \/ X.sch.prov = SumOver({o \in ObsNames : <<"AI", o, 0, 0>> \in DOMAIN X.procs},
+                                    LAMBDA o : OCfg(o).ing)
 Inv_C08_limits(X) ==
     /\ X.tel.use <= cfg.arrays /\ X.tel.use >= 0
     /\ Card(X.cl.ingest) <= cfg.maxIngest
@@ -364,7 +370,7 @@ End_C13_times(log, X) ==
 
 (* ------------------------ bundles used by the checks --------------------- *)
 InvNames == <<"C01.exec", "C01.claim", "C01.pool", "C02.partition", "C02.counts", "C02.numprov",
-              "C07.bounds", "C07.conserved", "C08.limits", "C08.arrays", "C09.count", "C09.counter", "C09.prompt", "C15.reported">>
+              "C07.bounds", "C07.conserved", "C08.limits", "C08.arrays", "C08.budget", "C09.count", "C09.counter", "C09.prompt", "C15.reported">>
 InvHolds(X, n) ==
     CASE n = "C01.exec" -> Inv_C01_exec(X) [] n = "C01.claim" -> Inv_C01_claim(X)
       [] n = "C01.pool" -> Inv_C01_pool(X)
@@ -372,6 +378,7 @@ InvHolds(X, n) ==
       [] n = "C02.numprov" -> Inv_C02_numprov(X)
       [] n = "C07.bounds" -> Inv_C07_bounds(X) [] n = "C07.conserved" -> Inv_C07_conserved(X)
       [] n = "C08.limits" -> Inv_C08_limits(X) [] n = "C08.arrays" -> Inv_C08_arrays(X)
+      [] n = "C08.budget" -> Inv_C08_budget(X)
       [] n = "C09.count" -> Inv_C09_count(X)
       [] n = "C09.counter" -> Inv_C09_counter(X)
       [] n = "C09.prompt" -> Inv_C09_prompt(X)
